@@ -471,11 +471,12 @@ inline bool plan_effect(Model const& M, ModelTraits const& T, Op const& op, Effe
 			if(op.var < 0 || op.var > 1) return false;
 		} else {
 			if(!binary_view_dims_ok(dv, sv)) return false;
-			if(op.kind == O_VASSIGN_VIEW && (op.var < 0 || op.var > 3)) return false;
-			if(op.kind == O_VASSIGN_VIEW && op.var == 2 && !T.tracked && !T.trivial) return false;  // moved-from value of such elements is unspecified
+			if(op.kind == O_VASSIGN_VIEW && (op.var < 0 || op.var > 5)) return false;
+			if(op.kind == O_VASSIGN_VIEW && (op.var == 2 || op.var == 4) && !T.tracked && !T.trivial) return false;  // moved-from value of such elements is unspecified
 			if(op.kind == O_VSWAP && (op.var < 0 || op.var > 1)) return false;
 		}
-		if(same_root && !disjoint(dv, sv)) return false;
+		bool const overlap = same_root && !disjoint(dv, sv);
+		if(overlap && !(op.ov == 1 && op.var == 0 && op.kind != O_VSWAP)) return false;
 		MArr const& ra = M.at(op.da, op.a);
 		MArr const& rb = M.at(op.db, op.b);
 		MArr& a        = tgt(0, op.da, op.a);
@@ -484,7 +485,7 @@ inline bool plan_effect(Model const& M, ModelTraits const& T, Op const& op, Effe
 		e.expect_no_alloc = e.expect_base_unchanged = true;
 		if(same_root) { var("same-root"); e.probe_id = P_VIEW_SAME_ROOT; }
 		if(dv.count() == 0) var("empty");
-		if(op.kind == O_VSWAP || (op.kind == O_VASSIGN_VIEW && op.var == 2)) {
+		if(op.kind == O_VSWAP || (op.kind == O_VASSIGN_VIEW && (op.var == 2 || op.var == 4))) {
 			e.moves_elements = true;
 			e.touched[0].assign(ra.v.size(), 0);
 			for(int q : dv.off) e.touched[0][static_cast<std::size_t>(q)] = 1;
@@ -505,11 +506,19 @@ inline bool plan_effect(Model const& M, ModelTraits const& T, Op const& op, Effe
 			var(op.var ? "adl" : "member");
 			return true;
 		}
+		if(overlap) {  // element by element in canonical order, reading what has already been written (the documented element-wise copy)
+			// no property specifies the result of assigning overlapping views: the model adopts whatever the library produced
+			// (valid-but-unspecified), and only the raw-pointer and the fancy-pointer build are compared with each other (C11)
+			var("overlap");
+			e.unspecified[0] = true;
+			e.viewwrite[0]   = false;
+			e.expect_base_unchanged = false;
+		} else
 		for(std::size_t i = 0; i < dv.off.size(); ++i) a.v[static_cast<std::size_t>(dv.off[i])] = rb.v[static_cast<std::size_t>(sv.off[i])];
 		if(op.kind == O_VASSIGN_VIEW) {
-			static char const* vn[] = {"const-ref", "moved-view", "element-moved", "rvalue-dest"};
+			static char const* vn[] = {"const-ref", "moved-view", "element-moved", "rvalue-dest", "rvalue-dest/element-moved", "rvalue-dest/moved-view"};
 			var(vn[op.var]);
-			if(op.var == 2 && !T.trivial) {
+			if((op.var == 2 || op.var == 4) && !T.trivial) {
 				MArr* b = same_root ? &a : &tgt(1, op.db, op.b);
 				e.viewwrite[1] = true;
 				for(std::size_t i = 0; i < sv.off.size(); ++i) b->v[static_cast<std::size_t>(sv.off[i])] = -7777;
